@@ -281,5 +281,33 @@ def handle : List String → Option String
         else
           showM showR (SrcSM.binary_test_loop_injected (Masked := List Float) bl id obs nsim rows seed fd ws sf [] n)
       | _, _, _, _, _, _, _, _, _, _, _ => "bad-op")
+  -- srcsm_get_expected_rates <cached 0/1> <n_cat after the pass | none> <counts of each catalog: `;`-separated, `err` = ValueError>
+  --   <empty'> : the rates (rationals). A yielded catalog is the outcome of its `spatial_magnitude_counts()`; the pass hands
+  --   out the list and leaves `n_cat`; the constructor keeps the data; `region.magnitudes` is not None
+  | ["srcsm_get_expected_rates", cached, ncat, cats, empty] => some (
+      let cat? : String → Option (PySM.M (List Nat)) := fun t =>
+        if t = "err" then some (.error (.py .valueError)) else (parseList? String.toNat? t).map .ok
+      match (if ncat = "none" then some none else (parseInt? ncat).map some),
+            (if cats = "-" then some [] else (cats.splitOn ";").mapM cat?), parseList? String.toNat? empty with
+      | some ncat, some cats, some empty =>
+        showM (fun r => match r.1 with | some d => showList showRat d | none => "none")
+          (SrcSM.get_expected_rates (T := Unit) (GF := List Rat) (Region := Unit) (Name := Unit) (Rest := Unit)
+            (Cat := PySM.M (List Nat)) (fun _ _ d _ _ _ => d) (fun c => c) (fun c _ => c)
+            (fun s => .ok (cats, (s.1, s.2.1, ncat, s.2.2.2.1, s.2.2.2.2.1, s.2.2.2.2.2.1, s.2.2.2.2.2.2)))
+            (fun _ => some []) empty ((), (if cached = "1" then some [7] else none), none, (), (), (), ()))
+      | _, _, _ => "bad-op")
+  -- srcsm_catalog_number_test <event counts of the catalogs of the pass> <observed count> :
+  --   `distribution | observed | delta_1 | delta_2`; `get_quantiles` is py2lean's generated definition
+  | ["srcsm_catalog_number_test", cnts, obs] => some (
+      match parseList? String.toNat? cnts, obs.toNat? with
+      | some cnts, some obs =>
+        let q : List Nat → Nat → Option Rat × Option Rat := fun d v =>
+          Src.get_quantiles (d.map (fun (k : Nat) => (k : Rat))) (v : Rat)
+        showM (fun (r : String × Unit) => r.1)
+          (SrcSM.catalog_number_test (Qv := Option Rat) (Result := String) (ObsRepr := Unit) (FName := Unit) (MinMw := Unit)
+            (ObsName := Unit) (Forecast := Unit) (Obs := Nat) (Cat := Nat) q
+            (fun d nm o qs st _ _ _ _ => s!"{showNats d}|{o}|{showOpt showRat qs.1}|{showOpt showRat qs.2}|{nm}|{st}")
+            (fun f => .ok (cnts, f)) id id (fun _ => ()) (fun _ => ()) (fun _ => ()) (fun _ => ()) () obs)
+      | _, _ => "bad-op")
   | _ => none
 end Drive.SrcSM
